@@ -285,6 +285,10 @@ def pad_shard_unpad(
     For more information refer to https://flax.readthedocs.io/en/latest/guides/data_preprocessing/full_eval.html
   """
 
+  if isinstance(static_argnames, str):
+    # one name, not a collection of characters to search in
+    static_argnames = (static_argnames,)
+
   def pad_shard_unpad_wrapper(*args, min_device_batch=None, **kw):
     d = jax.local_device_count()  # d = devices, b = batch
     batch_sizes = set()
